@@ -5,7 +5,7 @@
    through names holds for pairwise distinct child names (Names_proofs.v) and fails otherwise
    (C04_dup_names_refuted; known finding for `rename` collisions, DESIGN.md). *)
 From Coq Require Import List NArith ZArith Lia.
-From MC Require Import Str Str_proofs Packed Tree Spec Tree_proofs NoPanic Transcode_proofs Names_proofs.
+From MC Require Import Str Str_proofs Packed Tree Spec Tree_proofs NoPanic Transcode_proofs Names_proofs Equiv_proofs.
 Import ListNotations.
 
 (* once per consumed key, in order: the reported depth is the number of callbacks *)
@@ -25,6 +25,17 @@ Theorem C04_index_form_fixpoint : forall t k pre r calls, wf t -> small t ->
   trav nofail t k pre = (r, calls) -> reached r ->
   exists new, calls = new ++ pre /\ trav nofail t (KIter (map idx_key (rev new))) pre = (r, calls).
 Proof. exact index_form_fixpoint. Qed.
+
+(* interchangeable for the value operations too: serialize, deserialize, ref_any and mut_any give the
+   same outcome (result, new tree, call log) with a key as with the index form of the node it reaches,
+   on every run-time state and for every callback behaviour *)
+Theorem C04_value_ops_by_index_form :
+  forall (L : Type) (wr : L -> leafres L) (rd : L -> bool) (orc : oracle) (o : op) (t : node)
+         (k : keys) pre r calls, wf t -> small t ->
+    trav nofail t k pre = (r, calls) -> reached r ->
+    exists new, calls = new ++ pre /\
+      forall v : value L, run wr rd orc o t v k = run wr rd orc o t v (KIter (map idx_key (rev new))).
+Proof. exact run_index_form. Qed.
 
 (* chaining two key sources behaves as their concatenation, for every callback behaviour *)
 Theorem C04_chain_concat : forall cbf t a b pre,
@@ -78,6 +89,7 @@ Proof. exact dup_names_refuted. Qed.
 Print Assumptions C04_callback_count.
 Print Assumptions C04_index_form_fixpoint.
 Print Assumptions C04_chain_concat.
+Print Assumptions C04_value_ops_by_index_form.
 Print Assumptions C04_path_written_form.
 Print Assumptions C04_json_written_form.
 Print Assumptions C04_name_form_fixpoint.
